@@ -88,6 +88,12 @@ impl Stream for Invocations
 	{
 		"invocations".into()
 	}
+	fn crash_is_failure(&self) -> bool
+	{
+		// the worker only dies when the in-process reference compilation of
+		// the same files does: a compiler crash, which is C02's subject
+		false
+	}
 	fn count(&self, tier: Tier) -> u64
 	{
 		tier.pick(1500, 40_000)
